@@ -134,6 +134,7 @@ def r9_3(ctx, rc):
     L.lockset_rule(ctx, rc, ['BuildDirs', 'FileBackups',
                              'SimpleOperationExecutor', 'Cache'])
     L.shared_state_census(ctx, rc)
+    L.mutable_cache_is_locked(ctx, rc)
 
 
 def mutators(ctx):
